@@ -119,12 +119,16 @@ func errTok(err error) string {
 
 // apply runs one call on the real store; returns the result token and the lease token (if any).
 func (o op) apply(kv *sq.SqliteKV) (res string, tok uint64) {
+	return o.applyCtx(context.Background(), kv)
+}
+
+// applyCtx: the same call with the caller's context (deadline / cancellation cases)
+func (o op) applyCtx(ctx context.Context, kv *sq.SqliteKV) (res string, tok uint64) {
 	defer func() {
 		if e := recover(); e != nil {
 			res = "panic"
 		}
 	}()
-	ctx := context.Background()
 	switch o.kind {
 	case "put":
 		return errTok(kv.Put(ctx, o.k, o.v)), 0
@@ -364,6 +368,12 @@ func calibrate(root string) {
 	t0 := time.Now()
 	plan[1].apply(kv)
 	bigCallDuration = time.Since(t0)
+	// a small call (one key): starting point of the deadline thresholds
+	t0 = time.Now()
+	for i := 0; i < 40; i++ {
+		op{kind: "put", k: []byte(fmt.Sprintf("w%d", i%5)), v: []byte{byte(i)}}.apply(kv)
+	}
+	tun.base = float64(time.Since(t0).Nanoseconds()) / 40
 }
 
 func rngPerm(rng *hlib.Rng, n int) []int {
@@ -385,6 +395,7 @@ func childMain(args []string) {
 	seed, _ := strconv.ParseUint(args[1], 10, 64)
 	n, _ := strconv.Atoi(args[2])
 	big := args[3] == "true"
+	dl := len(args) > 4 && args[4] == "dl" // calls carry a context that ends while they run
 	say := func(s string) { os.Stdout.WriteString(s + "\n") } // one write(2) per line, unbuffered
 	if c := os.Getenv("WAZERO_CACHE"); c != "" {
 		sq.Initialize(c)
@@ -395,11 +406,36 @@ func childMain(args []string) {
 		say("openerr " + strings.ReplaceAll(err.Error(), "\n", " "))
 		os.Exit(3)
 	}
+	var raw *sql.DB
+	rng := hlib.NewRng(seed ^ 0x7e57)
+	if dl {
+		tun.load(os.Getenv("C23_THR"))
+		raw = rawOpen(dir)
+	}
 	say("ready")
 	for i, o := range plan {
+		if !dl {
+			say("issued " + strconv.Itoa(i))
+			o.apply(kv)
+			say("acked " + strconv.Itoa(i))
+			continue
+		}
+		before := dump(raw)
+		_, ctx, cancel, tune := ctxFor(rng, o)
 		say("issued " + strconv.Itoa(i))
-		o.apply(kv)
-		say("acked " + strconv.Itoa(i))
+		res, _ := o.applyCtx(ctx, kv)
+		cancel()
+		if tune && res != "panic" {
+			tun.feedback(opClass(o), res != "error") // returned in time (whatever the result) / cut short
+		}
+		switch {
+		case res != "error":
+			say("acked " + strconv.Itoa(i))
+		case dump(raw) == before:
+			say("failed " + strconv.Itoa(i) + " noeffect") // not acknowledged, and the tables show nothing of it
+		default:
+			say("failed " + strconv.Itoa(i) + " changed")
+		}
 	}
 	say("done")
 	kv.Close()
@@ -574,7 +610,7 @@ func seqCase(root string, id int, seed uint64, nops int) (out caseOut) {
 	return
 }
 
-func crashCase(root string, id int, seed uint64, n int, big bool) (out caseOut) {
+func crashCase(root string, id int, seed uint64, n int, big bool, dl bool) (out caseOut) {
 	rng := hlib.NewRng(seed ^ 0x5151)
 	dir := filepath.Join(root, fmt.Sprintf("crash%d", id))
 	ref := filepath.Join(root, fmt.Sprintf("crash%dref", id))
@@ -583,15 +619,12 @@ func crashCase(root string, id int, seed uint64, n int, big bool) (out caseOut) 
 	defer os.RemoveAll(dir)
 	defer os.RemoveAll(ref)
 	plan := genPlan(seed, n, big)
-	out.lines = append(out.lines, line{raw: true, lhs: fmt.Sprintf("# case crash %d seed %d n %d big %v", id, seed, n, big)}, line{raw: true, lhs: "reset"})
+	out.lines = append(out.lines, line{raw: true, lhs: fmt.Sprintf("# case crash %d seed %d n %d big %v deadlines %v", id, seed, n, big, dl)}, line{raw: true, lhs: "reset"})
 	var ks [][]byte
 	for _, o := range plan {
 		ks = append(ks, o.allKeys()...)
 	}
 	keyLines(&out, append(seqKeys(), ks...))
-	for _, o := range plan {
-		out.emit("plan "+o.tokens(0), "-")
-	}
 	// kill point: while call K is in flight (after a seeded delay), or K = -1: during start-up / migration
 	K := rng.Intn(n+1) - 1
 	if rng.Chance(15) {
@@ -623,6 +656,10 @@ func crashCase(root string, id int, seed uint64, n int, big bool) (out caseOut) 
 		}
 	}
 	cmd := exec.Command(os.Args[0], "child", dir, strconv.FormatUint(seed, 10), strconv.Itoa(n), hlib.B(big))
+	if dl {
+		cmd.Args = append(cmd.Args, "dl")
+		cmd.Env = append(os.Environ(), "C23_THR="+tun.export())
+	}
 	stdout, _ := cmd.StdoutPipe()
 	cmd.Stderr = nil
 	if err := cmd.Start(); err != nil {
@@ -634,6 +671,7 @@ func crashCase(root string, id int, seed uint64, n int, big bool) (out caseOut) 
 		time.AfterFunc(time.Duration(rng.Intn(400))*time.Millisecond, kill)
 	}
 	issued, acked, done := 0, 0, false
+	skipped := map[int]bool{} // deadline mode: calls that returned the context's error and left nothing
 	sc := bufio.NewScanner(stdout)
 	for sc.Scan() {
 		l := sc.Text()
@@ -649,6 +687,18 @@ func crashCase(root string, id int, seed uint64, n int, big bool) (out caseOut) 
 			}
 		case strings.HasPrefix(l, "acked "):
 			acked++
+		case strings.HasPrefix(l, "failed "):
+			// returned without acknowledgement (context ended): `noeffect` calls are left out of the
+			// history, `changed` ones stay in it (an effect must then be the whole call)
+			acked++
+			f := strings.Fields(l)
+			if len(f) == 3 && f[2] == "noeffect" {
+				j, _ := strconv.Atoi(f[1])
+				skipped[j] = true
+				out.count("crash:unacknowledged-call-left-nothing")
+			} else {
+				out.count("crash:unacknowledged-call-changed-the-store")
+			}
 		case l == "done":
 			done = true
 		case strings.HasPrefix(l, "openerr"):
@@ -668,6 +718,29 @@ func crashCase(root string, id int, seed uint64, n int, big bool) (out caseOut) 
 	}
 	if issued > acked && issued > 0 {
 		out.count("inflight:" + plan[issued-1].kind)
+	}
+	// the history the recovered store is compared with: every call that returned (except the unacknowledged
+	// ones that left nothing) and the call in flight; acked / issued count positions in that history
+	if len(skipped) > 0 {
+		var eff []op
+		a2, i2 := 0, 0
+		for i, o := range plan {
+			if skipped[i] {
+				out.lines = append(out.lines, line{raw: true, lhs: "# returned the context's error, no effect: " + o.tokens(0)})
+				continue
+			}
+			eff = append(eff, o)
+			if i < acked {
+				a2++
+			}
+			if i < issued {
+				i2++
+			}
+		}
+		plan, acked, issued = eff, a2, i2
+	}
+	for _, o := range plan {
+		out.emit("plan "+o.tokens(0), "-")
 	}
 	// recovery with the real constructor
 	rec := "openfail"
@@ -704,7 +777,7 @@ func crashCase(root string, id int, seed uint64, n int, big bool) (out caseOut) 
 	raw.Close()
 	kv.Close()
 	out.emit(fmt.Sprintf("recovered %d %d", acked, issued), rec)
-	out.key = fmt.Sprintf("crash/%d/%d/%d/%v", seed, acked, issued, killed.Load())
+	out.key = fmt.Sprintf("crash/%d/%d/%d/%v/%d", seed, acked, issued, killed.Load(), len(skipped))
 	return
 }
 
@@ -714,7 +787,7 @@ func main() {
 		return
 	}
 	r := hlib.Start()
-	r.Rule = "sequential cases: random histories of all write calls (put/del/pappend/premove/acquire/renew/release/import/remove, re-open with another hash function) on 6 keys with reads and raw table dumps; crash cases: seeded deterministic history applied by a child process SIGKILLed while a seeded call is in flight (or during open/migration), re-opened by the real constructor; non-trivial = distinct (kind,result) trace / distinct (seed,acked,issued)"
+	r.Rule = "sequential cases: random histories of all write calls (put/del/pappend/premove/acquire/renew/release/import/remove, re-open with another hash function) on 6 keys with reads and raw table dumps; deadline cases: seeded history whose calls carry a context that ends while the call runs (deadline or cancel, drawn around an adaptive per-call-class threshold at the commit hand-over), next to an uncancelled reference store executing the acknowledged calls, with re-opens; crash cases: seeded deterministic history (every third one with such contexts) applied by a child process SIGKILLed while a seeded call is in flight (or during open/migration), re-opened by the real constructor; non-trivial = distinct (kind,result) trace / distinct (seed,acked,issued)"
 	cache := os.Getenv("WAZERO_CACHE")
 	if cache == "" {
 		cache = filepath.Join(os.TempDir(), "verif-wazero")
@@ -735,29 +808,39 @@ func main() {
 	rng := hlib.NewRng(r.Seed)
 	calibrate(root)
 	r.Extra["big_call_duration_ms"] = float64(bigCallDuration.Microseconds()) / 1000
+	r.Extra["small_call_duration_ms"] = tun.base / 1e6
 
 	var jobs []func() caseOut
 	nseq, nops, ncrash := 24, 40, 30
+	ndl, ndlops := 16, 160
 	if r.Thorough() {
 		nseq, nops, ncrash = 300, 60, 400
+		ndl, ndlops = 200, 300
 	}
 	if r.Replay != "" {
 		// a crash is not replayable by construction; sequential lines are re-applied to a fresh real store
 		jobs = append(jobs, func() caseOut { return replayCase(root, r.ReplayLines()) })
-		nseq, ncrash = 0, 0
+		nseq, ncrash, ndl = 0, 0, 0
 	}
 	for i := 0; i < nseq; i++ {
 		id, seed := i, rng.U64()
 		jobs = append(jobs, func() caseOut { return seqCase(root, id, seed, nops) })
 	}
+	for i := 0; i < ndl; i++ {
+		id, seed := i, rng.U64()
+		jobs = append(jobs, func() caseOut { return dlCase(root, id, seed, ndlops) })
+	}
 	for i := 0; i < ncrash; i++ {
 		id, seed := i, rng.U64()
 		n := 8 + rng.Intn(25)
 		big := rng.Chance(35)
+		dl := false
 		if i%3 == 2 {
 			n, big = 2, true // directed: big Import then big RemoveKeys, killed inside one of them
+		} else if i%3 == 1 {
+			n, big, dl = 20+rng.Intn(60), false, true // calls carry contexts that end while they run
 		}
-		jobs = append(jobs, func() caseOut { return crashCase(root, id, seed, n, big) })
+		jobs = append(jobs, func() caseOut { return crashCase(root, id, seed, n, big, dl) })
 	}
 	results := make([]caseOut, len(jobs))
 	var wg sync.WaitGroup
@@ -776,6 +859,7 @@ func main() {
 		}()
 	}
 	wg.Wait()
+	r.Extra["deadline_thresholds_ns"] = tun.export()
 	for _, c := range results {
 		for _, l := range c.lines {
 			if l.raw {
